@@ -341,6 +341,23 @@ def run(ctx):
     ok = n_err >= 2 and len(rets) == 1 and "isEmpty" in render(rets[0], False) and "filter" in render(rets[0], False)
     R.ob("C22-R3", ok, kb.q, "inventory:break/continue directly in an OKL loop", "%s:%d" % (kb.relfile, kb.d["line"]), "%d error reports in the filter; valid iff the filtered set is empty" % n_err)
 
+    # ---- a constant-foldable iteration count is accepted only when it is positive ------------------------------------------------------
+    oc = [f for f in prog.funcs.values() if f.q == "occa::lang::okl::oklForStatement::oklForStatement" and f.d.get("tmpl") != "inst"]
+    reps = []
+    for f in oc:
+        for c in f.walk():
+            if is_call(c) and callee(c).endswith("printError") and any(x["k"] == "StringLiteral" and "range is empty" in str(literal(x)) for x in walk(c)):
+                reps.append((f, c))
+    if len(reps) != 1:
+        raise AnalysisBroken("oklForStatement: the empty-range report was not found (%d)" % len(reps))
+    f, c = reps[0]
+    g = [a_ for a_ in f.ancestors(c) if a_["k"] == "IfStmt" and any(write_target(x) is not None and noid(render(strip(write_target(x)), False)).endswith("valid") for x in walk(kids(a_)[1]))]
+    ctext = noid(render(kids(g[0])[0], False)).replace(" ", "") if g else ""
+    okc = ctext in ("(!(0<loop_range))", "(loop_range<=0)", "(loop_range<1)", "(!(loop_range>0))", "(0>=loop_range)", "(1>loop_range)", "(!(loop_range>=1))")
+    R.ob("C22-R3", okc, f.q, "inventory:constant loop range must be positive", f.site(g[0]) if g else f.site(c),
+         "rejected iff the folded iteration count is <= 0" if okc else
+         "the rejecting test is `%s`: some non-positive constant iteration count is accepted - `for (int i = 0; i < 0; ++i; @inner)` passes every backend" % ctext)
+
     # ---- R5 ---------------------------------------------------------------------
     n_loops = 0
     for f in prog.funcs.values():
